@@ -324,6 +324,18 @@ func ruleChecksumGates(p *Prog, r *Report, rule string) {
 				r.Fn(fnName(fn))
 				ok := argIs(c, idx, func(v ssa.Value) bool { return flagOK(v) || mOriginAll(flagOK)(v) })
 				r.Check(ok, fnName(fn), "verify-flag@"+callee, "block reads verify checksums: the flag is the constant true or the reader's verifyChecksum", "call at "+p.Pos(c.Pos())+" passes false or an unrelated flag: a damaged block would be served", p.Pos(c.Pos()))
+				// the table's own structure (index, metaindex, filter) is ALWAYS verified, whatever
+				// the strictness flags say: StrictBlockChecksum governs data blocks only. A damaged
+				// index accepted unverified answers "not found" for stored keys, or panics.
+				cc := callCommon(c)
+				if len(cc.Args) > 1 {
+					for _, hf := range []string{"indexBH", "metaBH", "filterBH"} {
+						if isFieldLoad(cc.Args[1], "leveldb/table.Reader", hf) {
+							b, isC := constBool(cc.Args[idx])
+							r.Check(isC && b, fnName(fn), "structure-block-always-verified:"+hf+"@"+callee, "index / metaindex / filter blocks are read with verification unconditionally on", "the read of r."+hf+" at "+p.Pos(c.Pos())+" does not pass the constant true: with StrictBlockChecksum off (NoStrict, StrictReader, …) a damaged "+hf+" block is accepted and cached", p.Pos(c.Pos()))
+						}
+					}
+				}
 			}
 		}
 	}
